@@ -253,6 +253,11 @@ class WriteExtractor:
             vals = [H.lit_int(x) for x in a[1]]
             if all(v is not None for v in vals):
                 return Item({"k": "constbytes", "bytes": vals, "span": span})
+            if vals and vals[0] is None and all(v == 0 for v in vals[1:]) and len(vals) in (1, 2, 4, 8):
+                # [x, 0, 0, 0]: the little-endian image of the byte x zero-extended to the array's width
+                src = self.source(a[1][0], env)
+                w_ = len(vals)
+                return Item({"k": "int", "w": w_, "e": "le", "signed": False, "ty": {1: "u8", 2: "u16", 4: "u32", 8: "u64"}[w_], "src": src, "span": span})
         p = self.path_of(a, env)
         if p is not None:
             return Item({"k": "rawbytes", "src": {"kind": "path", "path": p, "ops": []}, "span": span})
